@@ -16,7 +16,7 @@ import z3
 from . import types as T
 from .sorts import B, CLS, I, NONE, S, STR_OF, V, mkb, mki, mkr, mks
 from .state import SeqView, State, Val, arr_concat, arr_lit, arr_slice, fresh_const, fresh_name, join
-from .types import DictT, ListT, NoneType, Opt, SetT, TupleT
+from .types import DictT, ListT, NoneType, Opt, SetT, TupleT, UnionT
 from .world import Contract, Unsupported, World, canonical_name
 
 
@@ -161,6 +161,8 @@ class Executor:
             return TRUE
         if isinstance(ty, Opt):
             return z3.Or(V.is_none(t), self.type_pred(t, ty.t))
+        if isinstance(ty, UnionT):
+            return z3.Or([self.type_pred(t, m) for m in ty.members])
         if isinstance(ty, ListT):
             return z3.And(V.is_r(t), self.w.classes.isa(CLS(V.rid(t)), list))
         if isinstance(ty, TupleT):
@@ -203,12 +205,17 @@ class Executor:
     def as_ref(self, st, v: Val, node=None, what="object"):
         """id of the heap object; emits the None/attribute safety obligation when not statically a reference."""
         ty = v.ty
-        if ty in (int, bool, str, NoneType) or ty is None or isinstance(ty, Opt):
+        if ty in (int, bool, str, NoneType) or ty is None or isinstance(ty, Opt):  # (UnionT members are all references)
             self.oblige(st, V.is_r(v.t), f"safe.deref@{getattr(node,'lineno',0)}", "safe", node, f"{what} is an object (not None)")
             self.safe_assume(st, V.is_r(v.t))
         return V.rid(v.t)
 
     def seq_of(self, st, v: Val, node=None) -> SeqView:
+        if isinstance(v.ty, UnionT) and all(isinstance(m, (ListT, TupleT)) for m in v.ty.members):
+            oid = V.rid(v.t)
+            n = st.arr("$len")[oid]
+            st.assume(n >= 0)
+            return SeqView(n, st.arr("$el")[oid], None)
         oid = self.as_ref(st, v, node, "sequence")
         n = st.arr("$len")[oid]
         st.assume(n >= 0)
@@ -284,6 +291,8 @@ class Executor:
         if isinstance(ty, Opt):
             inner = self.truthy(st, Val(t, ty.t))
             return z3.And(z3.Not(V.is_none(t)), inner)
+        if isinstance(ty, UnionT):
+            return self.truthy_ref(st, V.rid(t), None)
         if isinstance(ty, (ListT, TupleT)):
             return st.arr("$len")[V.rid(t)] > 0
         if isinstance(ty, (DictT, SetT)):
@@ -365,8 +374,18 @@ class Executor:
 
     # ------------------------------------------------------------------ names
     def lookup(self, st: State, name: str, node=None) -> Val:
-        if self.spec is not None and name in self.spec.names:
-            return self.spec.names[name]
+        if self.spec is not None:
+            if name in self.spec.names:
+                return self.spec.names[name]
+            mod = getattr(self.spec, "module", None) or self.module
+            g = getattr(mod, "__dict__", {})
+            if name in g:
+                return self.w.const(g[name])
+            if name in getattr(self.module, "__dict__", {}):
+                return self.w.const(self.module.__dict__[name])
+            if hasattr(_builtins, name):
+                return self.w.const(getattr(_builtins, name))
+            raise Unsupported(f"unresolved name {name} in specification", node)
         if name in st.env:
             bc = st.bound.get(name)
             if bc is not None and not z3.is_true(bc):
@@ -739,6 +758,8 @@ class Executor:
         hint = self.w.field_hint(ty, attr) if isinstance(ty, type) else None
         if hint is not None and repr(hint) != repr(v.ty):
             self.oblige(st, self.type_pred(v.t, hint), f"type.{attr}@{getattr(node,'lineno',0)}", "type", node, f"value stored in .{attr} has type {T.tname(hint)}")
+        if attr in ("args", "parent"):
+            self.bump_treever(st)
         st.heap[attr] = z3.Store(st.arr(attr), oid, v.t)
 
     # subscripts -----------------------------------------------------------------
@@ -884,11 +905,18 @@ class Executor:
                 tgt = node.args[0]
                 nm = tgt.id if isinstance(tgt, ast.Name) else (tgt.target.id if isinstance(tgt, ast.NamedExpr) else None)
                 if nm and len(classes) == 1:
-                    nt[nm] = classes[0]
+                    nt[nm] = _hint_of_class(classes[0])
                 elif nm and len(classes) > 1:
-                    nt[nm] = T.join_types(list(classes))
+                    nt[nm] = T.join_types([_hint_of_class(c_) for c_ in classes])
                 if nm and isinstance(v.ty, Opt) and len(classes) == 1 and v.ty.t is classes[0]:
                     nf[nm] = NoneType
+                if nm and isinstance(v.ty, UnionT):
+                    yes = [m for m in v.ty.members if T.class_of_hint(m) is not None and any(issubclass(T.class_of_hint(m), c_) for c_ in classes)]
+                    no = [m for m in v.ty.members if m not in yes]
+                    if yes:
+                        nt[nm] = yes[0] if len(yes) == 1 else UnionT(yes)
+                    if no:
+                        nf[nm] = no[0] if len(no) == 1 else UnionT(no)
                 return c, nt, nf
         if isinstance(node, ast.NamedExpr):
             v = self.ev(node, st)
@@ -1285,19 +1313,20 @@ class Executor:
         if c.assumed:
             self.trusted_used.add(c.trusted_base or c.name)
         bind = self.bind_params(c, args, kwargs, node)
+        cmod = self.w.contract_module(c)
         tag = c.name.split(".")[-1]
         ln = getattr(node, "lineno", 0)
         pre = st.fork()
         # requires
         for k, r in enumerate(c.requires):
-            ctx = SpecCtx(self, old=pre, cur=st, names=dict(bind))
+            ctx = SpecCtx(self, old=pre, cur=st, names=dict(bind), module=cmod)
             g = ctx.eval_bool(r)
             self.oblige(st, g, f"pre.{tag}.{k}@{ln}", "pre", node, f"precondition of {c.name}: {r}")
             st.assume(g)
         # exceptional outcomes decided by the pre-state
         for exc_cls, spec in c.raises.items():
             when = spec.get("when")
-            ctx = SpecCtx(self, old=pre, cur=pre, names=dict(bind))
+            ctx = SpecCtx(self, old=pre, cur=pre, names=dict(bind), module=cmod)
             if when is None:
                 cnd = self.fresh(f"raises_{exc_cls.__name__}", B)
             else:
@@ -1309,7 +1338,7 @@ class Executor:
             self._havoc_modifies(c, spec.get("modifies", c.modifies if spec.get("inherit_modifies") else []), r, pre, bind)
             e = self.new_object(r, exc_cls)
             for eid, es in (spec.get("ensures") or {}).items():
-                ectx = SpecCtx(self, old=pre, cur=r, names={**bind, "exc": e})
+                ectx = SpecCtx(self, old=pre, cur=r, names={**bind, "exc": e}, module=cmod)
                 r.assume(ectx.eval_bool(es))
             self.raise_exc(r, e, node)
             st.assume(z3.Not(cnd))
@@ -1338,13 +1367,48 @@ class Executor:
             st.assume(z3.And(V.is_r(res.t), V.rid(res.t) >= self.alloc_term(pre), V.rid(res.t) < self.alloc_term(st)))
         else:
             self.assume_allocated(st, res.t)
-        for eid, es in c.ensures.items():
-            ctx = SpecCtx(self, old=pre, cur=st, names={**bind, "result": res})
+        for eid, es in list(c.ensures.items()) + list(c.assumed_ensures.items()):
+            ctx = SpecCtx(self, old=pre, cur=st, names={**bind, "result": res}, module=cmod)
             st.assume(ctx.eval_bool(es))
+        for eid in c.assumed_ensures:
+            self.trusted_used.add(f"assumed postcondition {eid} of {c.name}")
+        if c.log:
+            tag_, names_ = c.log[0], c.log[1]
+            if len(c.log) > 2:
+                # a dedicated log (prefix, e.g. "$ex"): number of calls and the first two arguments
+                pfx = c.log[2]
+                n = self.gh(st, pfx + "_n")
+                st.ghost[pfx + "_cmd"] = z3.Store(self.gh(st, pfx + "_cmd"), n, bind[names_[0]].t)
+                st.ghost[pfx + "_par"] = z3.Store(self.gh(st, pfx + "_par"), n, bind[names_[1]].t)
+                st.ghost[pfx + "_n"] = n + 1
+            else:
+                self.calllog(st, tag_, [bind[n_] for n_ in names_], res)
         for gname, gs in c.ghost_updates.items():
             ctx = SpecCtx(self, old=pre, cur=st, names={**bind, "result": res})
             st.ghost[gname] = ctx.eval_raw(gs)
         return res
+
+    def bump_treever(self, st):
+        if "$treever" in self.w.ghost_sorts:
+            v = self.fresh("treever", I)
+            st.assume(v > self.gh(st, "$treever"))
+            st.ghost["$treever"] = v
+
+    def gh(self, st, name):
+        g = st.ghost.get(name)
+        if g is None:
+            g = z3.Const(f"G0_{name}", self.w.ghost_sorts[name])
+            st.ghost[name] = g
+        return g
+
+    def calllog(self, st, tag, args, res):
+        """ghost log of calls to contracts marked log=...: (tag, first two arguments, result)"""
+        n = self.gh(st, "$cl_n")
+        st.ghost["$cl_tag"] = z3.Store(self.gh(st, "$cl_tag"), n, z3.StringVal(tag))
+        st.ghost["$cl_a1"] = z3.Store(self.gh(st, "$cl_a1"), n, args[0].t if len(args) > 0 else NONE)
+        st.ghost["$cl_a2"] = z3.Store(self.gh(st, "$cl_a2"), n, args[1].t if len(args) > 1 else NONE)
+        st.ghost["$cl_res"] = z3.Store(self.gh(st, "$cl_res"), n, res.t)
+        st.ghost["$cl_n"] = n + 1
 
     def _havoc_modifies(self, c: Contract, modifies, st: State, pre: State, bind):
         from .spec import SpecCtx
@@ -1361,13 +1425,18 @@ class Executor:
                 st.ghost[g] = self.fresh(f"g_{g}", old.sort())
             elif m.startswith("*."):
                 f = m[2:]
+                if f in ("$dmap", "$dhas", "args", "parent"):
+                    self.bump_treever(st)
                 st.heap[f] = self.fresh(f"H_{f}", st.arr(f).sort())
             else:
                 objexpr, f = m.rsplit(".", 1)
                 ctx = SpecCtx(self, old=pre, cur=pre, names=dict(bind))
                 o = ctx.eval(objexpr)
-                nv = self.fresh(f"hv_{f}", V)
-                st.heap[f] = z3.Store(st.arr(f), V.rid(o.t), nv)
+                if f in ("$dmap", "$dhas", "args", "parent"):
+                    self.bump_treever(st)
+                arr = st.arr(f)
+                nv = self.fresh(f"hv_{f}", arr.sort().range())
+                st.heap[f] = z3.Store(arr, V.rid(o.t), nv)
 
     # ------------------------------------------------------------------ statements
     def exec_block(self, stmts, st: State):
@@ -1472,6 +1541,7 @@ class Executor:
         ty = T.strip_opt(obj.ty)
         if isinstance(ty, DictT) or ty is dict:
             oid = self.as_ref(st, obj, node, "dict")
+            self.bump_treever(st)
             has = st.arr("$dhas")
             old_has = has[oid][idx.t]
             kl, ke = st.arr("$klen"), st.arr("$kel")
@@ -1679,6 +1749,16 @@ class Executor:
 
 
 _STR_METHODS = {"upper", "lower", "startswith", "endswith", "strip", "split", "replace", "join", "format", "isdigit"}
+
+
+def _hint_of_class(c):
+    if c is dict:
+        return DictT()
+    if c is list:
+        return ListT()
+    if c is tuple:
+        return TupleT(elem=None)
+    return c
 
 
 class SpecCallable:
